@@ -46,7 +46,7 @@ RunStep ==
   \/ SchedAllDone
   \/ SchedCancelObserved
   \/ \E v \in Tasks : \E k \in {"skip", "errskip", "run"} : SchedLaunch(v, k)
-  \/ \E v \in Tasks : Acquire(v) \/ Lock(v) \/ Enter(v) \/ Flush(v) \/ Sending(v) \/ Unlocking(v) \/ Releasing(v)
+  \/ \E v \in Tasks : Acquiring(v) \/ Locking(v) \/ Acquire(v) \/ Lock(v) \/ Enter(v) \/ Flush(v) \/ Sending(v) \/ Unlocking(v) \/ Releasing(v)
   \/ \E v \in Tasks : \E o \in Outcomes : Exit(v, o)
   \/ \E v \in Tasks : Len(buf[v]) < MaxFrags /\ Frag(v, <<v, att[v], Len(buf[v]) + 1>>)
   \/ WithCancel /\ Cancel
@@ -60,7 +60,8 @@ Fairness ==
   /\ WF_mcvars(SchedAllDone /\ UNCHANGED hist)
   /\ WF_mcvars(SchedCancelObserved /\ UNCHANGED hist)
   /\ \A v \in Tasks : \A k \in {"skip", "errskip", "run"} : WF_mcvars(SchedLaunch(v, k) /\ UNCHANGED hist)
-  /\ \A v \in Tasks : /\ SF_mcvars(Acquire(v) /\ UNCHANGED hist) /\ SF_mcvars(Lock(v) /\ UNCHANGED hist)
+  /\ \A v \in Tasks : /\ WF_mcvars(Acquiring(v) /\ UNCHANGED hist) /\ WF_mcvars(Locking(v) /\ UNCHANGED hist)
+                      /\ SF_mcvars(Acquire(v) /\ UNCHANGED hist) /\ SF_mcvars(Lock(v) /\ UNCHANGED hist)
                       /\ WF_mcvars(Enter(v) /\ UNCHANGED hist) /\ WF_mcvars(Flush(v) /\ UNCHANGED hist)
                       /\ WF_mcvars(Sending(v) /\ UNCHANGED hist) /\ WF_mcvars(Unlocking(v) /\ UNCHANGED hist)
                       /\ WF_mcvars(Releasing(v) /\ UNCHANGED hist)
@@ -76,7 +77,7 @@ Termination == <>(phase = "returned")
 ReadyStarts ==
   \A v \in Tasks : (phase = "run" /\ Ready(v)) ~> (att[v] > 0 \/ errs # {} \/ cancelled \/ status[v] = "skip")
 (* C14: a task that was launched is allowed to finish (its worker reaches its end) *)
-InFlightFinish == \A v \in Tasks : (w[v] = "waitsem") ~> (w[v] = "fin")
+InFlightFinish == \A v \in Tasks : (w[v] = "spawned") ~> (w[v] = "fin")
 
 Safety ==
   /\ TypeOK
